@@ -279,16 +279,16 @@ func ruleC15(w *World, r *Report) {
 	}
 
 	// ids of shared objects: released only in a function that has applied the DELETE of the entry that carries the id
-	for _, x := range []struct{ fn, release, what string }{
-		{"removeInternalApplicationIDAndGetP4rtEntry", "unsafeReleaseInternalApplicationID", "application id"},
-		{"removeGTPTunnelPeer", "unsafeReleaseAllocatedGTPTunnelPeer", "tunnel-peer id"},
+	// (a release is the id going back to its pool: through the release helper, or appended to the pool in place)
+	for _, x := range []struct{ fn, release, pool, what string }{
+		{"removeInternalApplicationIDAndGetP4rtEntry", "unsafeReleaseInternalApplicationID", "applicationIDsPool", "application id"},
+		{"removeGTPTunnelPeer", "unsafeReleaseAllocatedGTPTunnelPeer", "tunnelPeerIDsPool", "tunnel-peer id"},
 	} {
 		f := up(x.fn)
-		rel := up(x.release)
-		for _, c := range callsTo(f, rel) {
+		for _, c := range idReleaseSites(f, w.FnOpt("pfcpiface.(*UP4)."+x.release), x.pool) {
 			applied := false
 			allInstrs(f, func(i ssa.Instruction) {
-				if wc, ok := i.(*ssa.Call); ok && staticCallee(wc) != nil && staticCallee(wc).Name() == "ApplyTableEntries" && instrDominates(wc, c.(ssa.Instruction)) {
+				if wc, ok := i.(*ssa.Call); ok && staticCallee(wc) != nil && staticCallee(wc).Name() == "ApplyTableEntries" && instrDominates(wc, c) {
 					applied = true
 				}
 			})
@@ -537,6 +537,57 @@ func errGuardedStrict(fn *ssa.Function, call *ssa.Call, target ssa.Instruction) 
 		return false
 	}
 	return errGuarded(fn, call, ev, func(i ssa.Instruction) bool { return i == target })
+}
+
+// errNilOnEveryPathTo: the same guarantee as errGuardedStrict, decided path by path: on every feasible
+// path of fn that executes target, call was executed before it and in between an edge established that the
+// call's error is nil. Path by path a φ is the value that came in over the edge the path took, which is what
+// it takes to see that an error variable shared by several fallible steps (each later step run only while the
+// variable is still nil, one test after the last) is, where it is found nil, the last step's error — a path
+// that skipped the call carries an earlier step's non-nil error into the test and is infeasible (pathAtoms).
+// False when the paths cannot be enumerated.
+func errNilOnEveryPathTo(fn *ssa.Function, call *ssa.Call, target ssa.Instruction) bool {
+	ev := errResult(call)
+	if ev == nil {
+		return false
+	}
+	all := true
+	complete := enumPaths(fn, 1, 5000, func(p *Path) {
+		at := -1
+		for i, b := range p.Blocks {
+			if b == target.Block() {
+				at = i
+			}
+		}
+		if at < 0 || !all {
+			return
+		}
+		if _, feasible := pathAtoms(p); !feasible {
+			return
+		}
+		from := -1
+		for i := 0; i <= at; i++ {
+			if p.Blocks[i] == call.Block() && (i < at || idxIn(call.Block(), call) < idxIn(target.Block(), target)) {
+				from = i
+			}
+		}
+		if from < 0 {
+			all = false
+			return
+		}
+		for i := from; i < at; i++ {
+			x, op, y, ok := edgeFact(p.Blocks[i], p.Blocks[i+1])
+			if !ok || op != token.EQL {
+				continue
+			}
+			x, y = resolveAt(p, i, x), resolveAt(p, i, y)
+			if (x == ev && isNilConst(y)) || (y == ev && isNilConst(x)) {
+				return
+			}
+		}
+		all = false
+	})
+	return complete && all
 }
 
 // rootedPath renders a FieldAddr chain with the root parameter's *name* (not its type), so
@@ -792,29 +843,38 @@ func ruleC15Ownership(w *World, r *Report) {
 	}
 }
 
+// idReleaseSites: where g gives an id back to the named pool of UP4: the calls of the pool's release helper
+// (nil when the tree has none: the helper is a convenience — a release is the append, wherever it is written)
+// and the direct appends to the pool field.
+func idReleaseSites(g *ssa.Function, helper *ssa.Function, pool string) []ssa.Instruction {
+	var sites []ssa.Instruction
+	if helper != nil {
+		for _, c := range callsTo(g, helper) {
+			sites = append(sites, c.(ssa.Instruction))
+		}
+	}
+	allInstrs(g, func(i ssa.Instruction) {
+		if st, ok := i.(*ssa.Store); ok {
+			if fa, ok := st.Addr.(*ssa.FieldAddr); ok && fieldVar(fa) != nil && fieldVar(fa).Name() == pool {
+				if c, ok := st.Val.(*ssa.Call); ok && calleeName(c) == "builtin.append" {
+					sites = append(sites, i)
+				}
+			}
+		}
+	})
+	return sites
+}
+
 // ruleC15TunnelRelease (R15.3; re-filed under C11 as R11.7: the tunnel peer is shared by associations).
 func ruleC15TunnelRelease(w *World, r *Report, P string) {
 	up := func(name string) *ssa.Function { return w.Fn(P, "pfcpiface.(*UP4)."+name) }
 	f := up("addOrUpdateGTPTunnelPeer")
 	fn := w.FuncName(f)
-	release := up("unsafeReleaseAllocatedGTPTunnelPeer")
+	release := w.FnOpt("pfcpiface.(*UP4).unsafeReleaseAllocatedGTPTunnelPeer")
 	n := 0
 	for _, g := range withClosures(f) {
 		// release sites: calls of the release function, and direct returns of an ID to the queue
-		var sites []ssa.Instruction
-		for _, c := range callsTo(g, release) {
-			sites = append(sites, c.(ssa.Instruction))
-		}
-		allInstrs(g, func(i ssa.Instruction) {
-			if st, ok := i.(*ssa.Store); ok {
-				if fa, ok := st.Addr.(*ssa.FieldAddr); ok && fieldVar(fa) != nil && fieldVar(fa).Name() == "tunnelPeerIDsPool" {
-					if c, ok := st.Val.(*ssa.Call); ok && calleeName(c) == "builtin.append" {
-						sites = append(sites, i)
-					}
-				}
-			}
-		})
-		for _, c := range sites {
+		for _, c := range idReleaseSites(g, release, "tunnelPeerIDsPool") {
 			n++
 			// "this call allocated the id" is the lookup's absence, tested directly or carried in a local
 			// that can hold the tested value only when the absence branch was taken (boolImplies).
@@ -841,7 +901,7 @@ func ruleC15TunnelRelease(w *World, r *Report, P string) {
 		if !ok || !strings.HasSuffix(symOf(mu.Map).String(), "UP4.tunnelPeerIDs") {
 			return
 		}
-		g := apply != nil && errGuardedStrict(f, apply, mu)
+		g := apply != nil && (errGuardedStrict(f, apply, mu) || errNilOnEveryPathTo(f, apply, mu))
 		r.check(g, "R15.3", fn, "tunnel peer registered only after its write succeeded", w.Pos(mu.Pos()), "dominated by ApplyTableEntries == nil", "the tunnel peer is registered before the write: a failed write leaves a registered peer / lets the error path release a shared id")
 	})
 }
